@@ -7,6 +7,7 @@ import (
 	"io"
 	"net"
 	"strings"
+	"sync"
 	"time"
 
 	"github.com/gobwas/ws"
@@ -51,6 +52,8 @@ type subEnv struct {
 	dialCount  int
 	dialing    int
 	refused    int
+	firedMu    sync.Mutex
+	fired      map[string]int
 	dialScript *upScript
 	// per handler goroutine ("server-<client>"): scripts of the starts sent and not yet dialled
 	pendingStarts map[string][]*upScript
@@ -61,7 +64,7 @@ type subEnv struct {
 }
 
 func newSubEnv(f *fedEnv) *subEnv {
-	se := &subEnv{fedEnv: f, pendingStarts: map[string][]*upScript{}}
+	se := &subEnv{fedEnv: f, pendingStarts: map[string][]*upScript{}, fired: map[string]int{}}
 	f.s.DialFn = se.dial
 	return se
 }
@@ -93,6 +96,7 @@ func (se *subEnv) dial(ctx context.Context, network, addr string) (net.Conn, err
 	se.dialScript = sc
 	if svc < 0 || (sc != nil && sc.ack == "refuse-dial") {
 		se.refused++
+		se.fire("upstream.dial-refused")
 		return nil, fmt.Errorf("simnet: dial %s: connection refused", addr)
 	}
 	gwEnd, nodeEnd := simnet.Pipe(se.s, fmt.Sprintf("up%d-svc%d", n, svc))
@@ -151,6 +155,7 @@ func (se *subEnv) runUpstream(uc *upstreamConn) {
 		case "connection_init":
 			if resetEarly {
 				// the connection breaks between the gateway's init and start messages
+				se.fire("upstream.reset-during-handshake")
 				conn.Reset()
 				return
 			}
@@ -164,7 +169,11 @@ func (se *subEnv) runUpstream(uc *upstreamConn) {
 	uc.script = se.scripts(uc.svc, uc.query)
 	if uc.script.ack == "close-in-handshake" {
 		// the service goes away right after the handshake messages
+		se.fire("upstream.close-in-handshake")
 		return
+	}
+	if uc.script.ack == "never-ack" {
+		se.fire("upstream.never-ack")
 	}
 	// record the sub-request on the wire log (C02-style validity)
 	ex := se.execs[uc.svc]
@@ -211,20 +220,25 @@ func (se *subEnv) runUpstream(uc *upstreamConn) {
 			uc.emitted = append(uc.emitted, seq)
 			err = wsutil.WriteServerText(conn, wsMsg("data", "1", map[string]interface{}{"data": resp.Data}))
 		case "error":
+			se.fire("upstream.error-frame")
 			msg := fmt.Sprintf("upstream-error-%d-%d", uc.n, len(uc.errsSent))
 			uc.errsSent = append(uc.errsSent, msg)
 			err = wsutil.WriteServerText(conn, wsMsg("error", "1", []interface{}{map[string]interface{}{"message": msg, "extensions": map[string]interface{}{"code": "UP"}}}))
 		case "complete":
 			err = wsutil.WriteServerText(conn, wsMsg("complete", "1", nil))
 		case "connection-error":
+			se.fire("upstream.connection-error")
 			err = wsutil.WriteServerText(conn, wsMsg("connection_error", "", map[string]interface{}{"message": "nope"}))
 		case "unknown-type":
+			se.fire("upstream.unknown-type")
 			err = wsutil.WriteServerText(conn, wsMsg("zz_unknown", "1", nil))
 		case "bad-json":
+			se.fire("upstream.not-json")
 			err = wsutil.WriteServerText(conn, []byte("{not json"))
 		case "ka":
 			err = wsutil.WriteServerText(conn, wsMsg("ka", "", nil))
 		case "close":
+			se.fire("upstream.disconnect")
 			conn.Close()
 			<-gone
 			return
@@ -403,3 +417,10 @@ func (se *subEnv) handshaking() int {
 }
 
 func (se *subEnv) nextScript(uc *upstreamConn) *upScript { return uc.preScript }
+
+// fire counts a fault that actually happened (not merely was scripted).
+func (se *subEnv) fire(kind string) {
+	se.firedMu.Lock()
+	se.fired[kind]++
+	se.firedMu.Unlock()
+}
